@@ -196,6 +196,8 @@ pub mod rr_rustfft {
 #[rustradio(crate)]
 pub struct FftFilter<T: Engine> {
     buf: Vec<Complex>,
+    // Tags of the samples in `buf`, positions relative to the start of `buf`.
+    buf_tags: Vec<crate::stream::Tag>,
     nsamples: usize,
     fft_size: usize,
     tail: Vec<Complex>,
@@ -248,6 +250,7 @@ impl<T: Engine> FftFilter<T> {
                 tail: vec![Complex::default(); engine.tap_len()],
                 engine,
                 buf: Vec::with_capacity(fft_size),
+                buf_tags: Vec::new(),
                 nsamples,
             },
             dr,
@@ -275,6 +278,13 @@ impl<T: Engine> Block for FftFilter<T> {
             let (input, tags) = self.src.read_buf()?;
             // Read so that self.buf contains exactly self.nsamples samples.
             let add = std::cmp::min(input.len(), self.nsamples - self.buf.len());
+            // Keep the tags of the samples taken, relative to the batch.
+            let base = self.buf.len();
+            self.buf_tags.extend(
+                tags.iter()
+                    .filter(|t| t.pos() < add)
+                    .map(|t| crate::stream::Tag::new(base + t.pos(), t.key(), t.val().clone())),
+            );
             self.buf.extend(input.iter().take(add).copied());
             input.consume(add);
             if self.buf.len() < self.nsamples {
@@ -297,7 +307,8 @@ impl<T: Engine> Block for FftFilter<T> {
             // Output.
             // TODO: needless copy?
             o.fill_from_slice(&self.buf[..self.nsamples]);
-            o.produce(self.nsamples, &tags);
+            o.produce(self.nsamples, &self.buf_tags);
+            self.buf_tags.clear();
 
             // Stash tail.
             for i in 0..self.tail.len() {
@@ -389,6 +400,8 @@ impl<T: Engine> Block for FftFilterFloat<T> {
             for (i, samp) in outer_in.iter().take(n).enumerate() {
                 o[i] = Complex::new(*samp, 0.0);
             }
+            // Only the tags of the samples actually moved.
+            let tags: Vec<_> = tags.into_iter().filter(|t| t.pos() < n).collect();
             inner_to.produce(n, &tags);
             outer_in.consume(n);
         }
@@ -408,6 +421,7 @@ impl<T: Engine> Block for FftFilterFloat<T> {
                 o[i] = samp.re;
             }
             inner_from.consume(n);
+            let tags: Vec<_> = tags.into_iter().filter(|t| t.pos() < n).collect();
             outer_to.produce(n, &tags);
         }
 
